@@ -218,10 +218,16 @@ func summarizeCalls(calls []procCall, max int) string {
 	for _, c := range calls {
 		if c.Op == "reorg" {
 			s = append(s, fmt.Sprintf("reorg(%d)", c.Num))
+		} else if c.Op == "track" {
+			e := ""
+			if c.Err != "" {
+				e = "=ERR"
+			}
+			s = append(s, fmt.Sprintf("track(%d,%s)%s", c.Num, c.Hash.Hex()[2:8], e))
 		} else if c.Err != "" {
 			s = append(s, fmt.Sprintf("process(%d)=ERR", c.Num))
 		} else {
-			s = append(s, fmt.Sprintf("process(%d,%dev)", c.Num, len(c.Events)))
+			s = append(s, fmt.Sprintf("process(%d,%dev,%s)", c.Num, len(c.Events), c.Hash.Hex()[2:8]))
 		}
 	}
 	if len(s) > max {
